@@ -729,11 +729,34 @@ fn interference(ctx: &Ctx) {
         "pool": pool.len(), "sets": sets.len(), "settings": cfgs.iter().map(|c| c.name()).collect::<Vec<_>>(), "pairs": pairs.load(Ordering::Relaxed), "triple_sub_pool": sub.len(), "triples": triples.load(Ordering::Relaxed)}));
 }
 
+/// Long test cases with thousands of repeated-substring candidates: 24 builds each on 24 brand-new threads (fresh
+/// hash seeds per map instance and per thread) must agree. This SAMPLES hash seeds -- the seam explorer cannot
+/// enumerate the orders of a map with two thousand entries -- and is labelled so.
+fn many_candidates(ctx: &Ctx) {
+    let u = u_double_blocks();
+    let cfgs = [Cfg::new(R), Cfg::with(R, 1, 2)];
+    for i in 0..u.len() {
+        let t = u.set(i);
+        for c in &cfgs {
+            let outs: Vec<Result<String, String>> = (0..24).map(|_| fresh_thread_build(*c, &t)).collect();
+            ctx.run.evals.fetch_add(24, Ordering::Relaxed);
+            ctx.run.mark_nontrivial(hash_case(&t, c));
+            let distinct: BTreeSet<&Result<String, String>> = outs.iter().collect();
+            if distinct.len() > 1 {
+                let v: Vec<String> = distinct.iter().map(|o| o.as_ref().map(|s| s.clone()).unwrap_or_else(|e| format!("<panic {e}>"))).collect();
+                ctx.run.violation(viol("C10", "determinism", "hash-seed-sensitive (long test case, thousands of repetition candidates)".into(), &t, c, &v[0], json!({"distinct_outputs": v.len(), "outputs": v.iter().take(3).collect::<Vec<_>>(), "builds": 24})));
+            }
+        }
+    }
+    ctx.run.space(json!({"engine": "24 builds on 24 new threads per case (SAMPLING of hash seeds, labelled as such)", "universe": u.name, "sets": u.len(), "settings": "r, r(1,2)"}));
+}
+
 pub fn run(ctx: &Ctx) {
     *ctx.run.rule.lock().unwrap() = "H: BFS over real RegExpBuilder objects from permuted/duplicated initial lists, one transition per setter/build/clone, states merged only when (owned test-case vector, config) are identical, invariant (build, build twice, clone-build == fresh canonical build under the reference-model settings) evaluated in every state; orders: every permutation and single duplication of every set; N: DFS over every choice at the hash-order seam (iteration order of the repetition map in cluster.rs; the representative-choice seam in recreate_graph was retired together with the nondeterminism it exposed, fix 5b265b8), all combinations when <= cap executions else all with <= 2 (then 1) non-default choices, plus 8 un-seamed builds per case (fresh RandomState per container: this part samples hash seeds and is what catches iteration over a container that has no seam); separate processes compared by digest; lazy tables: all 3! first-use orders in fresh processes; a case is non-trivial when it has more than one execution / a history state; distinct by hash".into();
     ctx.run.assumptions.lock().unwrap().push("after fix 5b265b8 the hash seed can influence build() only through the iteration order of the repetition map (seamed, explored exhaustively); every other HashSet/HashMap use in dfa.rs and cluster.rs is membership, insertion, min() or set algebra (reviewed) -- cross-checked by 8 un-seamed builds per case with fresh RandomState and by separate processes".into());
     h_engine(ctx);
     interference(ctx);
+    many_candidates(ctx);
     orders(ctx);
     n_engine(ctx);
     lazy_tables(ctx);
